@@ -71,6 +71,9 @@ Ltac qb :=
              assert (~ a <= b) by (let K := fresh in intro K; apply Qle_bool_iff in K; congruence); clear H
          end.
 
+(* computing without opening the arithmetic *)
+Ltac cbnq := cbn -[Qred Qplus Qminus Qdiv Qmult Qinv Qopp inject_Z Z.mul Z.sub Z.add Z.opp Qle_bool Qeq_bool Qlt_le_dec].
+
 (* a == b over expressions built from inject_Z, + - * / and a divisor known to be positive *)
 Ltac solve_q :=
   rewrite ?inject_Z_mult, ?inject_Z_plus, ?inject_Z_opp;
@@ -93,9 +96,9 @@ Lemma bridge_port_run_init : forall (c : pcfg) (s : port) (size : Z) (out_set : 
     (if pstarted s then None else port_run_step (with_started s) None (port_gen_init c s size out_set)).
 Proof.
   intros c s size out_set Hs. unfold port_gen_init, gen_Port_run_from_0, port_run_step, port_run_next_state, port_run_fields.
-  cbn. destruct s as [nw q st sv by_ rc dr av]; cbn in *; subst sv.
+  cbnq. destruct s as [nw q st sv by_ rc dr av]; cbn in *; subst sv.
   destruct st; [reflexivity|].
-  unfold server_get, with_started, with_bytes, with_svc; cbn.
+  unfold server_get, with_started, with_bytes, with_svc; cbnq.
   destruct (sq_get fifo_pop q); reflexivity.
 Qed.
 
@@ -117,9 +120,9 @@ Proof.
   destruct st; cbn [negb]; [|reflexivity].
   unfold leave_now; rewrite Hfix.
   destruct (Qlt_le_dec 0 (c_rate c)) as [Hr|Hr];
-    destruct (Qle_bool (c_rate c) (0 # 1)) eqn:E; qb; try (exfalso; lra); cbn.
-  - unfold with_svc, with_bytes, with_q; cbn. delay_eq c p.
-  - unfold server_get, with_svc, with_bytes, with_q; cbn.
+    destruct (Qle_bool (c_rate c) (0 # 1)) eqn:E; qb; try (exfalso; lra); cbnq.
+  - unfold with_svc, with_bytes, with_q; cbnq. delay_eq c p.
+  - unfold server_get, with_svc, with_bytes, with_q; cbnq.
     destruct (sq_get fifo_pop q'); reflexivity.
 Qed.
 
@@ -135,7 +138,7 @@ Proof.
   destruct s as [nw q st sv by_ rc dr av]; cbn [port_act psvc pnow].
   destruct sv as [[p dl]|]; [|reflexivity].
   destruct (Qeq_bool dl nw); [|reflexivity].
-  cbn. unfold server_get, with_svc, with_bytes; cbn.
+  cbnq. unfold server_get, with_svc, with_bytes; cbnq.
   destruct (sq_get fifo_pop q); reflexivity.
 Qed.
 
@@ -147,8 +150,8 @@ Lemma port_run_step_fields_get : forall (c : pcfg) (s : port) (p : pkt) (s' : po
 Proof.
   intros c s p s' outs Hs. unfold port_gen_get, gen_Port_run_from_1, port_run_fields.
   destruct s as [nw q st sv by_ rc dr av]; cbn in Hs; subst sv.
-  destruct (Qle_bool (c_rate c) (0 # 1)); cbn.
-  - unfold server_get, with_svc, with_bytes; cbn. destruct (sq_get fifo_pop q); intros H; inversion H; subst; reflexivity.
+  destruct (Qle_bool (c_rate c) (0 # 1)); cbnq.
+  - unfold server_get, with_svc, with_bytes; cbnq. destruct (sq_get fifo_pop q); intros H; inversion H; subst; reflexivity.
   - intros H; inversion H; subst; reflexivity.
 Qed.
 
@@ -157,8 +160,8 @@ Lemma port_run_step_fields_timer : forall (c : pcfg) (s : port) (p : pkt) (s' : 
   port_run_fields s' = fst (fst (port_gen_timer c s p)).
 Proof.
   intros c s p s' outs. unfold port_gen_timer, gen_Port_run_from_2, port_run_fields.
-  destruct s as [nw q st sv by_ rc dr av]; cbn.
-  unfold server_get, with_svc, with_bytes; cbn. destruct (sq_get fifo_pop q); intros H; inversion H; subst; reflexivity.
+  destruct s as [nw q st sv by_ rc dr av]; cbnq.
+  unfold server_get, with_svc, with_bytes; cbnq. destruct (sq_get fifo_pop q); intros H; inversion H; subst; reflexivity.
 Qed.
 
 (* ---- the effects and the next request, explicitly ---------------------------------------------------------------
@@ -173,9 +176,9 @@ Lemma port_run_get_explicit : forall (c : pcfg) (s : port) (p : pkt),
   | _ => False
   end.
 Proof.
-  intros c s p. unfold port_gen_get, gen_Port_run_from_1, port_run_fields; cbn.
+  intros c s p. unfold port_gen_get, gen_Port_run_from_1, port_run_fields; cbnq.
   destruct (Qlt_le_dec 0 (c_rate c)) as [Hr|Hr];
-    destruct (Qle_bool (c_rate c) (0 # 1)) eqn:E; qb; try (exfalso; lra); cbn; split; try reflexivity; try assumption.
+    destruct (Qle_bool (c_rate c) (0 # 1)) eqn:E; qb; try (exfalso; lra); cbnq; split; try reflexivity; try assumption.
   split; [assumption|]. unfold tx. solve_q.
 Qed.
 
@@ -184,6 +187,6 @@ Lemma port_run_timer_explicit : forall (c : pcfg) (s : port) (p : pkt) (dl : Q),
   snd (fst (port_gen_timer c s p)) = [FxOutPut 1 (psize p) (pbytes s - psize p)] /\
   snd (port_gen_timer c s p) = NxYield RqStoreGet PP1.
 Proof.
-  intros c s p dl Hs. unfold port_gen_timer, gen_Port_run_from_2, port_run_fields, busy_flag, busy_size; cbn.
+  intros c s p dl Hs. unfold port_gen_timer, gen_Port_run_from_2, port_run_fields, busy_flag, busy_size; cbnq.
   rewrite Hs. split; reflexivity.
 Qed.
